@@ -157,7 +157,32 @@ def run_procmon(prop, tier, t0):
                            ], required_counters=req, required_anchors=anchors)
 
 
-ENGINES = {'C19': run_valmon, 'C03': run_archmon, 'C08': run_archmon, 'C04': run_procmon, 'C17': run_procmon}
+def run_crashmon(prop, tier, t0):
+    from kv import crashmon
+    opts = {'quick': {'cases': 240, 'budget_s': 70}, 'thorough': {'cases': 4000, 'budget_s': 1500}}[tier]
+    merged, problems = common.run_shards('crashmon', prop, tier, common.NCPU, opts,
+                                         timeout=opts['budget_s'] * 3 + 240)
+    c = merged['counters']
+    if c.get('c13_kill_did_not_fire'):
+        problems.append('%d armed kills did not fire' % c['c13_kill_did_not_fire'])
+    if c.get('c13_event_prefix_mismatch'):
+        merged['notes'].append('%d killed runs departed from the dry run\'s event kinds before the kill point'
+                               % c['c13_event_prefix_mismatch'])
+    extra = {'exhaustive': False,
+             'explanation': 'per driven triple the sweep over mutating file-system events (+ half writes) is exhaustive '
+                            '(c13_triples_fully_swept of c13_triples); the set of triples is sampled'}
+    return common.conclude(prop, tier, t0, merged, problems, crashmon.RULE, 40, 'crashmon', extra=extra,
+                           assumptions=ASSUME_COMMON + [
+                               'crash = SIGKILL of the process immediately before a libc file-system call issued under the '
+                               'archive root (LD_PRELOAD interposition; open/creat/write/pwrite/writev/close/rename*/unlink*/'
+                               'rmdir/mkdir*/ftruncate/fsync/fdatasync/chmod/link/symlink), plus a half-written variant of '
+                               'every write; the page cache survives (no power loss), so durability of un-synced data is not tested',
+                               'crashing before a non-mutating call is state-equivalent to crashing before the next mutating one',
+                           ], required_counters=['c13_crash_states_judged', 'c13_triples_fully_swept', 'c13_kill_before_rename',
+                                                 'c13_kill_before_write', 'c13_reader_processes'])
+
+
+ENGINES = {'C13': run_crashmon, 'C19': run_valmon, 'C03': run_archmon, 'C08': run_archmon, 'C04': run_procmon, 'C17': run_procmon}
 for _p in CACHEMON:
     ENGINES[_p] = run_cachemon
 for _p in KEYMON:
